@@ -7,12 +7,15 @@
     Conformance is also closed under crossover ([cross_check], any number of parents, any
     parameters), so every value the operators can build from conforming values conforms. *)
 From Coq Require Import String.
-From Coq Require Import List ZArith NArith Bool.
+From Coq Require Import List Arith ZArith NArith Bool Lia.
 From Cambrian Require Import Base.F64 SourceFacts Syntax Ops OpsProofs SpecBuild SpecProofs Codec CodecProofs MutProofs CrossProofs.
+From Cambrian Require Import Ctl CtlProofs CtlStruct CtlConf.
 Import ListNotations.
 
 Example keys_registered : map_keys_registered_before_next_key = true.  Proof. reflexivity. Qed.
 Example rescaling_is_identity : rescaling_never_assigned = true.  Proof. reflexivity. Qed.
+(** [create_offspring] has the shape the run-level theorem below assumes (regenerated from the source) *)
+Example offspring_shape : offspring_is_mutated_crossover_of_population = true.  Proof. reflexivity. Qed.
 
 Theorem initial_value_conforms : forall y s, build y = Ok s -> conforms s (init_val s) = true.
 Proof. exact accepted_init_conforms. Qed.
@@ -56,6 +59,69 @@ Theorem bounded_real_stays_inside :
     x' = x \/ (fle a x' = true /\ fle x' b = true).
 Proof. intros. eapply real_both_bounds; eauto. Qed.
 Print Assumptions bounded_real_stays_inside.
+
+(** ** the whole run.  [create_offspring]: crossover of population values (the initial value when
+    the population is empty), then mutation.  For every configuration, oracle stream and schedule:
+    if every fresh entry of the start log is such an offspring of values that were started
+    earlier in the same run, then every value handed to the objective function, and the value the
+    run returns, conforms.  (That population values were started earlier, that re-evaluations
+    carry the value of their id and that the first evaluation is the initial value are proved:
+    [InvS].) *)
+Definition offspring_of (s : spec) (init : value) (vs : list value) (v : value) : Prop :=
+  exists child,
+    ((vs = [] /\ child = init) \/ (exists cp pr, cross_check cp pr s vs child = true)) /\
+    (exists mp ms p c c', mut_check mp ms s p c child v = Some c').
+
+Lemma offspring_conforms s init vs v :
+  wf s = true -> conforms_g false s init = true ->
+  (forall x, In x vs -> conforms_g false s x = true) -> offspring_of s init vs v -> conforms_g false s v = true.
+Proof.
+  intros W Hi Hvs (child & Hc & (mp & ms & p & c & c' & Hm)).
+  eapply mutate_conforms; [reflexivity | exact W | | exact Hm].
+  destruct Hc as [[_ ->]|(cp & pr & Hx)]; [exact Hi|]. eapply crossover_conforms; eauto.
+Qed.
+
+Theorem every_evaluated_value_conforms :
+  forall (M T : Type) (tcmp : T -> T -> comparison) (mean : list T -> T) (hit : T -> bool)
+         (max_pop min_reeval ss : nat) (nc : N) (budget : option N) (s : spec) (init : value) (os : N -> orc value M),
+    1 <= ss -> wf s = true -> conforms_g false s init = true ->
+    forall (ls : list (label T)),
+    match exec tcmp mean hit max_pop min_reeval ss budget init os (Ctl.init T min_reeval ss nc budget init os) ls with
+    | Cont c =>
+        derived value (offspring_of s init) (c_started c) ->
+        forall id sd v, In (id, sd, v) (c_started c) -> conforms_g false s v = true
+    | Ret c r =>
+        derived value (offspring_of s init) (c_started c) ->
+        (forall id sd v, In (id, sd, v) (c_started c) -> conforms_g false s v = true) /\
+        (forall x v a b, r = ROk x v a b -> conforms_g false s v = true)
+    | _ => True
+    end.
+Proof.
+  intros M T tcmp mean hit max_pop min_reeval ss nc budget s init os Hss W Hi ls.
+  apply (all_values_good value M T tcmp mean hit max_pop min_reeval ss nc budget init os Hss
+           (fun v => conforms_g false s v = true) (offspring_of s init) Hi).
+  intros vs v Hvs Hg. eapply offspring_conforms; eauto.
+Qed.
+Print Assumptions every_evaluated_value_conforms.
+
+(** non-vacuity: two concurrent evaluations of a boolean; the second value is the mutated initial
+    value (empty population); the start log is derived and has two entries *)
+Definition ex_os01 (sd : N) : orc value unit := mkOrc false (VBool false) tt.
+Example derived_run_exists :
+  match exec Z.compare (fun l => hd 0%Z l) (fun _ => false) 100 20 1 None (VBool true) ex_os01
+             (Ctl.init Z 20 1 2%N None (VBool true) ex_os01) [] with
+  | Cont c => c_started c = [(0%N, 0%N, VBool true); (1%N, 1%N, VBool false)] /\
+              derived value (offspring_of (SBool true) (VBool true)) (c_started c)
+  | _ => False
+  end.
+Proof.
+  match goal with |- match ?e with Cont _ => _ | _ => _ end => let r := eval vm_compute in e in change e with r end.
+  cbn [c_started]. split; [reflexivity|]. intros n id sd v Hn.
+  destruct n as [|[|n]]; [left; reflexivity| |destruct n; discriminate].
+  right. right. exists []. split; [intros x []|]. inversion Hn; subst.
+  exists (VBool true). split; [left; split; reflexivity|].
+  exists fone, fone, [], [], []. vm_compute. reflexivity.
+Qed.
 
 Example closure_nonvacuous :
   let s := SAnonMap (SInt 3 fone (Some 0%Z) (Some 9%Z)) 1 (Some 1%nat) (Some 2%nat) in
